@@ -8,8 +8,8 @@
    (Generated.Regexes.valid_id_chars_re). *)
 From Coq Require Import Permutation Sorted.
 From Apko Require Import Base.Prelude Base.Regex Base.C01Lib Base.C11Lib Generated.Regexes Generated.C11Prov
-  Model.Sbom Model.SbomRepair Model.SbomLic Model.SbomProv Spec.SbomSpec Spec.SbomLicSpec Spec.SbomProvSpec
-  Proofs.SbomProofs Proofs.SbomTwoTargets Proofs.SbomRepairProofs Proofs.SbomNumbered Proofs.SbomLicProofs Proofs.SbomProvProofs.
+  Model.Sbom Model.SbomRepair Model.SbomLic Model.SbomProv Model.SbomRelease Spec.SbomSpec Spec.SbomLicSpec Spec.SbomProvSpec Spec.SbomReleaseSpec
+  Proofs.SbomProofs Proofs.SbomTwoTargets Proofs.SbomRepairProofs Proofs.SbomNumbered Proofs.SbomLicProofs Proofs.SbomProvProofs Proofs.SbomReleaseProofs.
 Open Scope string_scope. Open Scope list_scope.
 
 (* validIDCharsRe is `class+`: its matches are the maximal runs of bytes of one
@@ -363,6 +363,41 @@ Theorem c11_built_index_described : forall ord bi d, (forall l, Permutation (ord
 Proof. exact built_index_described. Qed.
 Print Assumptions c11_built_index_described.
 
+(* ---- /etc/os-release (readReleaseData): where VERSION_ID, the version of every layer element, comes from ----
+   For EVERY file content: the three fields are what the LAST line assigning to ID / NAME / VERSION_ID
+   assigns (a line assigns to the text before its first "=", the value is the rest without leading and
+   trailing double quotes; empty lines and # lines do not count, a trailing \r does not belong to the line),
+   and the empty string when no line assigns to the key. *)
+Theorem c11_os_release_fields : forall s r, read_release (Some s) = Ok r ->
+  forall k f, In (k, f) [("ID", rd_id r); ("NAME", rd_name r); ("VERSION_ID", rd_version r)] ->
+    (forall v, LastAssigns k v (scan_lines s) -> f = v) /\ (NeverAssigned k (scan_lines s) -> f = "").
+Proof. exact read_release_fields. Qed.
+Print Assumptions c11_os_release_fields.
+
+(* it answers or fails with an error (no panic, no fuel), fails exactly when some line is neither empty,
+   nor a comment, nor has an "=", and a missing file gives the three defaults *)
+Theorem c11_os_release_fails_iff_malformed : forall f,
+  ((exists r, read_release f = Ok r) \/ read_release f = Err) /\
+  (forall s, f = Some s -> (read_release f = Err <-> exists l, In l (scan_lines s) /\ Malformed l)) /\
+  read_release None = Ok {| rd_id := "unknown"; rd_name := "apko-generated image"; rd_version := "unknown" |}.
+Proof.
+  intro f. split; [exact (read_release_outcome f)|]. split; [|exact read_release_missing].
+  intros s ->. exact (read_release_err s).
+Qed.
+Print Assumptions c11_os_release_fails_iff_malformed.
+
+(* that VERSION_ID is what Generate receives as the OS version (the e2e records are built with it) *)
+Theorem c11_os_version_handed_over : forall f r b, read_release f = Ok r -> b_version_id b = release_version_of f ->
+  g_osver (expected_input b) = rd_version r /\ forall h, p_version (layer_package (g_osver (expected_input b)) h) = rd_version r.
+Proof. intros f r b H E. cbn [expected_input g_osver layer_package p_version]. rewrite E, (release_version_of_ok f r H). split; [reflexivity | intro h; reflexivity]. Qed.
+Print Assumptions c11_os_version_handed_over.
+
+Theorem c11_os_release_validators_decide : forall k v l ls,
+  (last_assign k ls = Some v <-> LastAssigns k v ls) /\ (last_assign k ls = None <-> NeverAssigned k ls) /\
+  (malformed_b l = true <-> Malformed l).
+Proof. intros. exact (conj (last_assign_some k ls v) (conj (last_assign_none k ls) (malformed_b_iff l))). Qed.
+Print Assumptions c11_os_release_validators_decide.
+
 (* ---- EXTRACTED LICENSING INFOS (mergeLicensingInfos) ----------------------------------------------- *)
 (* one merge: the result is the union keyed by id, target first; it keeps the target untouched as a
    prefix, appends only source infos whose id is new, once per id, and contains EVERY source info with
@@ -470,3 +505,9 @@ Proof. exact ex_built_index_ok. Qed.
 Example c11_example_licensing : (exists d, generate_full (fun l => l) lic_g [("foo-1.0.spdx.json", [lic_mit; lic_bsd]); ("bar.spdx.json", [lic_bsd; lic_mit])] = Ok (d, [lic_mit; lic_bsd])) /\
   generate_full (fun l => l) lic_g [("foo-1.0.spdx.json", [lic_mit]); ("bar.spdx.json", [lic_bsd; lic_mit'])] = Err.
 Proof. exact (conj lic_example (proj1 lic_example_conflict)). Qed.
+
+(* ... and of the os-release theorems: comment, CRLF, quotes, a repeated key, no final newline; a malformed file *)
+Example c11_example_os_release : read_release (Some ex_os_release) = Ok {| rd_id := "wolfi"; rd_name := "Wolfi"; rd_version := "20230201" |}
+  /\ LastAssigns "VERSION_ID" "20230201" (scan_lines ex_os_release)
+  /\ read_release (Some ("ID=x" +++ String ch_nl "oops")) = Err.
+Proof. exact ex_os_release_ok. Qed.
